@@ -98,6 +98,7 @@ type edit struct {
 	File     string   // file that is rewritten
 	Affects  []string // files whose own audit is documented to see a breaking edit
 	Keys     []string // two edits sharing a key are never combined
+	tdName   string   // retarget-typedef: the alias
 	apply    func(c *ectx) bool
 }
 
@@ -997,6 +998,7 @@ func (en *enumerator) typedefLevel(f *idl.File, di int, td *idl.TypeDef) {
 				return true
 			})
 			e.Affects = users
+			e.tdName = name
 			e.Quals = []string{"via-typedef"}
 			if nd.path != "" {
 				e.Quals = append(e.Quals, "nested")
